@@ -56,6 +56,8 @@ def plan(tier, seed):
             for bucket in range(b["buckets"]):
                 chunks.append({"key": f"detect/{arch}/pre{prepend}/b{bucket}", "kind": "detect", "arch": arch, "prepend": prepend, "bucket": bucket, "cost": 4000})
     chunks.append({"key": "detect/negative", "kind": "detect_negative", "cost": 500})
+    for arch in ("x86", "x64"):
+        chunks.append({"key": f"detect/maxrange/{arch}", "kind": "detect_maxrange", "arch": arch, "cost": 2500})
     return chunks
 
 
@@ -351,6 +353,47 @@ def chunk_detect(chunk, acc):
     acc.sample({"arch": arch, "decoded_prepend": pre, "stub": "fce8", "marker": True, "size_consistent": False, "trailer": 5, "expect_nonce_offset": 5})
 
 
+def chunk_detect_maxrange(chunk, acc):
+    """The caller-supplied candidate search range: a stage whose nonce lies comfortably inside the range is located
+    (by the marker, by the size field, or both) whatever the range is; beyond the range nothing is promised except
+    "documented result or ValueError", and a reported offset is never a wrong one."""
+    from dissect.cobaltstrike.xordecode import XorEncodedFile
+
+    arch = chunk["arch"]
+    image = refpe.build_pe(arch=arch, data=lcg(64, acc.seed + 1))
+    stubs = [("plain", b"\x90" * L) for L in (0, 5, 40, 120, 600, 1500, 2000)]
+    # an early marker-like decoy far in front of the real end of the stub
+    stubs += [("decoy", b"\x90" * 100 + xorenc.MARKER + b"\x90" * k) for k in (1397, 1897)]
+    for sname, stub in stubs:
+        for marker, size_ok in ((True, True), (True, False), (False, True)):
+            full = stub + (xorenc.MARKER if marker else b"")
+            L = len(full)
+            blob = xorenc.encode(image, NONCES[2], full, size_ok=size_ok, trailer=b"" if size_ok else b"T")
+            for R in (16, 64, 128, 512, 1024, 2048, 4096):
+                acc.states += 1
+                acc.transitions += 1
+                case = {"kind": "maxrange", "arch": arch, "stub": sname, "stub_len": len(stub), "marker": marker, "size_ok": size_ok, "maxrange": R, "seed": acc.seed}
+                try:
+                    xf = XorEncodedFile.from_file(io.BytesIO(blob), maxrange=R)
+                    res = ("ok", xf.nonce_offset)
+                except ValueError:
+                    res = ("ValueError",)
+                except Exception as e:  # noqa
+                    res = ("EXC", f"{type(e).__name__}: {e}")
+                inside = L + 8 <= R
+                acc.case((sname, len(stub), marker, size_ok, R), nontrivial=True, outcome=(res[0], inside))
+                if res[0] == "EXC":
+                    acc.fail("C09/detect/maxrange/wrong-exception", case, "result or ValueError", res[1])
+                elif res[0] == "ok":
+                    if res[1] != L:
+                        acc.fail("C09/detect/maxrange/wrong-nonce-offset", case, {"nonce_offset": L}, list(res))
+                    elif xf.tell() != 0 or xf.read(len(image)) != image:
+                        acc.fail("C09/detect/maxrange/view-not-image", case, "decoded image at position 0", "different bytes")
+                elif inside:
+                    acc.fail("C09/detect/maxrange/not-detected", case, {"nonce_offset": L}, list(res))
+    acc.sample({"arch": arch, "nonce_offsets": [0, 5, 40, 120, 600, 1500, 2000], "maxrange": [16, 64, 128, 512, 1024, 2048, 4096], "located_by": ["marker+size", "marker", "size"]})
+
+
 def chunk_detect_negative(chunk, acc):
     img = refpe.build_pe(arch="x86", data=lcg(64, acc.seed + 2))
     negatives = {
@@ -371,7 +414,7 @@ def chunk_detect_negative(chunk, acc):
 
 
 def run_chunk(chunk, acc):
-    {"graph": chunk_graph, "unmerged": chunk_unmerged, "detect": chunk_detect, "detect_negative": chunk_detect_negative}[chunk["kind"]](chunk, acc)
+    {"graph": chunk_graph, "unmerged": chunk_unmerged, "detect": chunk_detect, "detect_negative": chunk_detect_negative, "detect_maxrange": chunk_detect_maxrange}[chunk["kind"]](chunk, acc)
 
 
 def replay(case):
@@ -410,6 +453,13 @@ def replay(case):
             return {"ok": True, "expected": None, "observed": "blob too large to record; rerun the chunk"}
         res = detect(blob)
         return {"ok": res[0] == "ValueError", "expected": "ValueError", "observed": list(res[:2])}
+    if case["kind"] == "maxrange":
+        from vmc.runner import Acc
+
+        a = Acc("replay", "quick", case.get("seed", 0))
+        chunk_detect_maxrange({"arch": case["arch"]}, a)
+        v = next((v for v in a.violations if all(v["case"].get(k) == case.get(k) for k in ("stub", "stub_len", "marker", "size_ok", "maxrange"))), None)
+        return {"ok": v is None, "expected": v["expected"] if v else None, "observed": v["observed"] if v else None}
     raise ValueError(case["kind"])
 
 
